@@ -199,6 +199,10 @@ pub struct Engine {
     pub path: Vec<(u32, bool)>,
     pub pathmap: HashMap<u32, bool>,
     pub max_decisions: usize,
+    /// the outcome a fresh decision gets first (the other one on backtracking), see `explore_near`
+    pub first_answer: bool,
+    /// at most this many decisions per path get the other outcome (usize::MAX: all 2^k patterns), see `explore_near`
+    pub max_dev: usize,
     /// decide() calls on this path, reused outcomes included (guards against cycles that only reuse)
     pub calls: usize,
     /// abs/min/max/signum build Ite terms instead of forking
@@ -247,6 +251,8 @@ impl Default for Engine {
             path: vec![],
             pathmap: HashMap::new(),
             max_decisions: 48,
+            first_answer: true,
+            max_dev: usize::MAX,
             calls: 0,
             ite_mode: false,
             int_mode: false,
@@ -360,8 +366,8 @@ pub fn decide(c: Cond) -> bool {
             if e.trail.len() >= e.max_decisions {
                 return Err(false);
             }
-            e.trail.push(true);
-            true
+            e.trail.push(e.first_answer);
+            e.first_answer
         };
         e.pos += 1;
         e.path.push((id, v));
@@ -431,6 +437,16 @@ pub fn set_range_assumed() {
 /// No effect in native (replay) mode, where conditions are simply evaluated.
 pub fn freeze_decisions(on: bool) {
     with(|e| e.frozen = on);
+}
+/// Restricted exploration for code that takes one independent decision per lane of a wide vector (2^N outcome
+/// patterns): explore only the patterns in which at most `max_dev` decisions differ from `first`. With
+/// `max_dev = 1` that is the all-`first` pattern plus every single-deviation pattern (N+1 paths). A scenario
+/// calls this at the start of every run; the patterns not explored are outside its claim and it says so.
+pub fn explore_near(first: bool, max_dev: usize) {
+    with(|e| {
+        e.first_answer = first;
+        e.max_dev = max_dev;
+    });
 }
 pub fn set_max_decisions(n: usize) {
     with(|e| e.max_decisions = n);
